@@ -43,6 +43,7 @@ func runC08(r *an.Run) {
 	failedResultNotUsed(r, "R9-value-of-a-failed-call-is-not-used")
 	c08SliceBounds(r)
 	physicalLines(r, "R11-physical-line-numbers")
+	compiledInterfacesNeverNil(r, "R12-compiled-matchers-are-never-nil")
 }
 
 func tokenEOF(r *an.Run) int64 {
